@@ -1,4 +1,5 @@
 import NxModel.Nex.Backend
+import NxModel.Nex.BackendServe
 import NxModel.DriverUtil
 /-! line-protocol driver for the back-end login model (see harness/corr_C17.py)
   plan <nexVersion> <clientVersion> <kd> <keySize> <pidSize> <authHost> <authPort> <username> <passwordhex|none> <authInfo 0|1>
@@ -7,6 +8,11 @@ import NxModel.DriverUtil
   -> <calls joined by |> ; <none | source hex | derived kd pid hex> ; <connect host port sid pid cid sessionkeyhex internalhex | rmc code | exc Name>
   session <nexVersion> <clientVersion> <kd> <keySize> <pidSize> <authHost> <authPort> { ;; (<username> <passwordhex|none> <authInfo 0|1> | guest) <first> <second> }
   -> the plans of the steps through one client object (`Backend.session`), same format, joined by " ;; "
+  serve <keySize> <pidSize> <ticketVersion> <epoch> <tzOffset> <serverKeyHex> { ;; <connectPayloadHex> <nowTicks> }
+  -> the verdicts of one secure server object on these CONNECT payloads at these instants (`Backend.serve`), joined by " ;; ":
+     accept <pid> <cid> <responsehex> | err <Name>
+  creq <pidSize> <internalhex> <sessionkeyhex> <pid> <cid> <check>
+  -> the CONNECT payload the client builds from these credentials (`Backend.connectRequest`), hex | err <Name>
 -/
 open Nx Nx.Backend
 
@@ -69,8 +75,38 @@ def sessionLine (line : String) : String :=
     | _, _, _, _, _, _, _ => "bad-op"
   | _ => "bad-op"
 
+def showVerdict : Verdict → String
+  | .accepted pid cid _ resp => s!"accept {pid} {cid} {hexOut resp}"
+  | .refuse e => "err " ++ e.name
+
+def parsePresentation : List String → Option Presentation
+  | [d, now] => do let d ← fromHex d; let now ← now.toNat?; pure ⟨d, now⟩
+  | _ => none
+
+def serveLine (line : String) : String :=
+  match (line.splitOn " ;; ").map (fun part => (part.splitOn " ").filter (· ≠ "")) with
+  | ["serve", ks, ps, tv, ep, tz, key] :: ptoks =>
+    match ks.toNat?, ps.toNat?, tv.toNat?, ep.toNat?, tz.toInt?, fromHex key, ptoks.mapM parsePresentation with
+    | some ks, some ps, some tv, some ep, some tz, some key, some pres =>
+      " ;; ".intercalate ((serve ⟨⟨ks, ps, tv⟩, ep, tz, key⟩ pres).map showVerdict)
+    | _, _, _, _, _, _, _ => "bad-op"
+  | _ => "bad-op"
+
+def creqLine (line : String) : String :=
+  match (line.splitOn " ").filter (· ≠ "") with
+  | ["creq", ps, internal, sk, pid, cid, check] =>
+    match ps.toNat?, fromHex internal, fromHex sk, pid.toNat?, cid.toNat?, check.toNat? with
+    | some ps, some internal, some sk, some pid, some cid, some check =>
+      match connectRequest ps ⟨"", 0, 0, pid, cid, ⟨sk, 0, internal⟩⟩ check with
+      | .ok b => hexOut b
+      | .error e => "err " ++ e.name
+    | _, _, _, _, _, _ => "bad-op"
+  | _ => "bad-op"
+
 def step (line : String) : String :=
   if line.startsWith "session " then sessionLine line else
+  if line.startsWith "serve " then serveLine line else
+  if line.startsWith "creq " then creqLine line else
   match (line.splitOn " ").filter (· ≠ "") with
   | "plan" :: nv :: cv :: kd :: ks :: ps :: ah :: ap :: user :: pw :: ai :: rest =>
     match nv.toNat?, cv.toNat?, kd.toNat?, ks.toNat?, ps.toNat?, ap.toNat?, parseFirst rest with
